@@ -340,6 +340,30 @@ func closedRing(v ssa.Value, from *ssa.BasicBlock, depth int) (bool, string) {
 		lc, ok := bo.X.(*ssa.Call)
 		return ok && eng.BuiltinName(lc) == "len" && lc.Call.Args[0] == x
 	}
+	// the block is reached only through the edge on which Equal(v, 0, v, len(v)-stride) holds
+	for d := from; d != nil && d.Idom() != nil; d = d.Idom() {
+		id := d.Idom()
+		ifi := eng.BlockIf(id)
+		if ifi == nil || len(id.Succs) != 2 {
+			continue
+		}
+		cond, neg := ifi.Cond, false
+		if u, ok := cond.(*ssa.UnOp); ok && u.Op == token.NOT {
+			cond, neg = u.X, true
+		}
+		c, ok := cond.(*ssa.Call)
+		if !ok || !isEqualFirstLast(c, v) {
+			continue
+		}
+		edge := 0
+		if neg {
+			edge = 1
+		}
+		sb := id.Succs[edge]
+		if (sb == d || sb.Dominates(d)) && len(sb.Preds) == 1 {
+			return true, "reached only where its first and last coordinates are equal"
+		}
+	}
 	// a ring a function literal captured: the one value the enclosing function stored in the variable
 	if cv, ok := capturedValue(v); ok {
 		if st := storeOf(cv); st != nil {
@@ -842,17 +866,31 @@ func betweenDegenerateRule(p *core.Program, r *core.Report, rule string) {
 			collinear, _ = constant.Int64Val(c.Val())
 		}
 	}
-	ev := &eng.ConstEval{Inline: func(f *ssa.Function) bool { return false }}
+	// the ordinates are symbols c<param>.<k>; a comparison of c1.k with c3.k folds as "equal", wherever it is made
+	// (in isBetween itself or in a predicate helper it hands the ordinates to)
+	ev := &eng.ConstEval{Inline: func(f *ssa.Function) bool { return core.FnPkgPath(f) == core.FnPkgPath(fn) }, MaxDepth: 4}
 	ev.OverrideIn = func(res *eng.CEResult, v ssa.Value, args []eng.CVal) (eng.CVal, bool) {
 		switch x := v.(type) {
 		case *ssa.Call:
 			if f := x.Call.StaticCallee(); f != nil && f.Name() == "OrientationIndex" {
 				return eng.IntV(collinear), true
 			}
+		case *ssa.UnOp:
+			if prm, idx := ordOf(x); prm != nil && res.Fn == fn {
+				if k, isK := eng.ConstInt(idx); isK {
+					for pi, cp := range cs {
+						if cp == prm {
+							return eng.SymV(fmt.Sprintf("c%d.%d", pi+1, k)), true
+						}
+					}
+				}
+			}
 		case *ssa.BinOp:
-			px, ix := ordOf(x.X)
-			py, iy := ordOf(x.Y)
-			if px == nil || py == nil || !((px == cs[0] && py == cs[2]) || (px == cs[2] && py == cs[0])) || !eng.Equiv(ix, iy) {
+			a, b := res.Of(x.X), res.Of(x.Y)
+			if a.K != eng.CSym || b.K != eng.CSym || len(a.S) != 4 || len(b.S) != 4 || a.S[3] != b.S[3] {
+				return eng.CVal{}, false
+			}
+			if !((a.S[:2] == "c1" && b.S[:2] == "c3") || (a.S[:2] == "c3" && b.S[:2] == "c1")) {
 				return eng.CVal{}, false
 			}
 			switch x.Op {
@@ -985,15 +1023,23 @@ func reduceKeepsCandidatesRule(p *core.Program, r *core.Report, rule string) {
 			in = prm
 		}
 	}
+	var bind map[*ssa.Parameter]ssa.Value
 	var origin func(v ssa.Value, depth int) string
 	origin = func(v ssa.Value, depth int) string {
-		if depth > 6 {
+		if depth > 8 {
 			return "?"
 		}
 		switch x := v.(type) {
 		case *ssa.Parameter:
 			if x == in {
 				return "input"
+			}
+			if a, ok := bind[x]; ok {
+				saved := bind
+				bind = nil // the argument is a value of the caller
+				o := origin(a, depth+1)
+				bind = saved
+				return o
 			}
 		case *ssa.Phi:
 			out := ""
@@ -1040,10 +1086,35 @@ func reduceKeepsCandidatesRule(p *core.Program, r *core.Report, rule string) {
 				if callee.Name() == "computeOctRing" || strings.Contains(strings.ToLower(callee.Name()), "oct") {
 					return "the octagon (" + callee.Name() + ")"
 				}
-				// a helper that pads or copies one of its array arguments
-				for _, a := range x.Call.Args {
-					if isFloatSlice(a.Type()) {
-						return origin(a, depth+1)
+				// a helper of the hull code: where what it returns comes from, with its array parameters standing for
+				// the arguments of this call
+				if callee.Blocks != nil && depth < 5 {
+					saved := bind
+					nb := map[*ssa.Parameter]ssa.Value{}
+					for k, v := range saved {
+						nb[k] = v
+					}
+					for ai, a := range x.Call.Args {
+						if ai < len(callee.Params) {
+							nb[callee.Params[ai]] = a
+						}
+					}
+					out := ""
+					for _, b := range callee.Blocks {
+						ret, ok := b.Instrs[len(b.Instrs)-1].(*ssa.Return)
+						if !ok || len(ret.Results) == 0 {
+							continue
+						}
+						bind = nb
+						o := origin(ret.Results[0], depth+1)
+						bind = saved
+						if o != "input" && o != "set" {
+							return o
+						}
+						out = o
+					}
+					if out != "" {
+						return out
 					}
 				}
 			}
